@@ -284,8 +284,16 @@ def hash_provenance_rules(P, rep, rid, st):
         rep.rule(rid, 'hash provenance: a freshly computed data hash is stored in a block only together with the commit to REP/BLK; REP -> DELETED always invalidates; new CHG blocks get ZERO or the DELETED predecessor\'s hash', 5)
     # ---- R-C05-5 hash provenance
     # (a) every store of a freshly computed hash into block->hash
+    engines = []
     for fname in ('state_sync_process', 'state_hash_process'):
-        h = P.fn(fname)
+        h0 = P.fn(fname)
+        engines.append((fname, h0))
+        # static helpers split out of the engine (the per-disk commit loop) are analysed like the engine itself
+        for c_ in h0.calls():
+            g_ = P.functions.get(c_.callee_full) if c_.callee_full else None
+            if g_ is not None and not g_.decl and g_.internal and any(True for _ in g_.calls('block_state_set')):
+                engines.append((fname, g_))
+    for fname, h in engines:
         rep.analysed(h)
         for m in h.calls('llvm.memcpy.p0i8.p0i8.i64'):
             dst, src = h.expr(m.ops[0]), h.expr(m.ops[1])
